@@ -307,6 +307,9 @@ class WSStream:
     async def _handle_events(self) -> None:
         for event in self.connection.events():
             if isinstance(event, Message):
+                if self.connection.state == ConnectionState.LOCAL_CLOSING:
+                    continue  # Closing (e.g. message too big), so ignore further messages
+
                 try:
                     self.buffer.extend(event)
                 except FrameTooLargeError:
